@@ -141,7 +141,7 @@ class Ctx:
         meta = tempfile.mkdtemp(prefix="meta-", dir=self.scratch)
         out = os.path.join(self.scratch, name + ".tlcout")
         workers = workers or NCPU
-        cmd = ["java", "-Xss" + xss, "-XX:+UseParallelGC"]
+        cmd = ["java", "-Xss" + xss, "-XX:+UseParallelGC", "-Djava.io.tmpdir=" + self.scratch]
         if heap:
             cmd.append("-Xmx" + heap)
         cmd += ["-cp", JAR, "tlc2.TLC", "-workers", str(workers), "-metadir", meta,
@@ -310,6 +310,8 @@ class Ctx:
             violations.append(c)
         for kid, (kf, n) in sorted(matched.items()):
             print("KNOWN-FINDING: property=%s %s [%s, %d case(s) this run]" % (self.prop, kf["what"], kid, n))
+        for d in self.model_drift[:5]:
+            print("MODEL-DRIFT property=%s %s" % (self.prop, d[:600]))
         paths = []
         if violations or matched:
             byclass = {}
